@@ -1439,24 +1439,51 @@ Proof.
   split; [apply firstn_skipn|]. intros x. rewrite <- (firstn_skipn n_row labels) at 1. apply in_app_iff.
 Qed.
 
-Lemma propagation_labels_pf (sort_clusters bipartite : bool) (n_row : nat) (raw : list Z) :
-  let all := snd (unique_inverse raw) in
+Lemma nodup_len_contig (l : list nat) k :
+  (forall c, In c l <-> c < k) -> length (nodup Z.eq_dec (map Z.of_nat l)) = k.
+Proof.
+  intros H. rewrite <- (seq_length k 0). rewrite <- (map_length Z.of_nat (seq 0 k)).
+  apply Permutation_length. apply NoDup_Permutation.
+  - apply NoDup_nodup.
+  - apply FinFun.Injective_map_NoDup; [intros a b E; lia | apply seq_NoDup].
+  - intros x. rewrite nodup_In, !in_map_iff. split; intros [c [E Hc]]; exists c; (split; [exact E|]).
+    + apply in_seq. apply H in Hc. lia.
+    + apply H. apply in_seq in Hc. lia.
+Qed.
+
+Lemma propagation_labels_pf argsort (sort_clusters bipartite : bool) (n_row : nat) (raw : list Z) :
+  (sort_clusters = true ->
+   let keys := map (fun c => (- Z.of_nat c)%Z) (unique_counts (map Z.of_nat (snd (unique_inverse raw)))) in
+   argsort_ok keys (argsort keys)) ->
+  let all := propagation_all argsort sort_clusters raw in
   let k := length (nodup Z.eq_dec raw) in
   length all = length raw /\
   (forall i j, i < length raw -> j < length raw -> (nthn all i = nthn all j <-> nthz raw i = nthz raw j)) /\
   (forall c, In c all <-> c < k) /\
-  propagation_labels sort_clusters bipartite n_row raw =
+  (sort_clusters = true ->
+   forall a b, a <= b -> b < k -> count_occ Nat.eq_dec all b <= count_occ Nat.eq_dec all a) /\
+  propagation_labels argsort sort_clusters bipartite n_row raw =
     if bipartite then (firstn n_row all, Some (firstn n_row all, skipn n_row all)) else (all, None).
 Proof.
-  intros all k. destruct (unique_inverse_contiguous_pf raw) as [H1 [H2 H3]].
-  split; [exact H1|]. split; [exact H2|]. split; [exact H3|].
-  unfold propagation_labels, split_vars. destruct bipartite; reflexivity.
+  intros Hsort all k. destruct (unique_inverse_contiguous_pf raw) as [H1 [H2 H3]]. fold k in H3.
+  set (compact := snd (unique_inverse raw)) in *.
+  assert (Hlast : propagation_labels argsort sort_clusters bipartite n_row raw =
+                  if bipartite then (firstn n_row all, Some (firstn n_row all, skipn n_row all)) else (all, None)).
+  { unfold propagation_labels, split_vars. fold all. destruct bipartite; reflexivity. }
+  unfold all, propagation_all. fold compact. destruct sort_clusters.
+  - destruct (reindex_labels_spec_pf argsort (map Z.of_nat compact) (Hsort eq_refl)) as [HL [HP [HC HS]]].
+    rewrite map_length in HL, HP. rewrite (nodup_len_contig compact k H3) in HC, HS.
+    split; [rewrite HL; exact H1|]. split.
+    + intros i j Hi Hj. rewrite <- H1 in Hi, Hj. rewrite (HP i j Hi Hj). rewrite !nthz_map_of_nat_any.
+      rewrite H1 in Hi, Hj. rewrite <- (H2 i j Hi Hj). lia.
+    + split; [exact HC|]. split; [intros _; exact HS | exact Hlast].
+  - split; [exact H1|]. split; [exact H2|]. split; [exact H3|]. split; [discriminate | exact Hlast].
 Qed.
 
-(** PropagationClustering accepts sort_clusters=True (the default) and never sorts. *)
-Lemma propagation_sort_clusters_refuted_pf :
+(** LEGACY model (before /repo 350bc655): sort_clusters=True (the default) was accepted and never sorted. *)
+Lemma legacy_propagation_sort_clusters_refuted_pf :
   exists raw : list Z,
-    let out := fst (propagation_labels true false 0 raw) in
+    let out := fst (legacy_propagation_labels true false 0 raw) in
     ~ (forall a b, a <= b -> b < 2 -> count_occ Nat.eq_dec out b <= count_occ Nat.eq_dec out a).
 Proof.
   exists [0; 0; 2; 2; 2]%Z. intros out H. specialize (H 0 1 ltac:(lia) ltac:(lia)).
